@@ -284,8 +284,22 @@ class CheckTypes(FnSpec):
     raises_exact = False
 
     def init(self):
-        self.bindings["check_allowed_types"] = lambda cx, s: cx.effect("check_allowed_types", s)
-        self.bindings["check_overrides"] = lambda cx, s: cx.effect("check_overrides", s)
+        def may_refuse(what):
+            def f(cx, s):
+                cx.effect(what, s)
+                if cx.choose(2) == 1:  # the check refuses the class (its own contract says when)
+                    cx.ghost["refused_by"] = what
+                    cx.py_raise("TypeError", "refused")
+
+            return f
+
+        self.bindings["check_allowed_types"] = may_refuse("check_allowed_types")
+        self.bindings["check_overrides"] = may_refuse("check_overrides")
+
+    def on_raise(self, cx, a, exc):
+        # what makes a refusal final: the class is not left marked as checked, so checking it again (registering it again, another plugin nesting it) refuses it again
+        flag = a.schema.fields["__types_checked__"]
+        return [("refused-class-is-not-left-marked-as-checked", z3.BoolVal(flag is False), "a class that is refused when the plugin is checked is refused at every check, not only at the first one")]
 
     def setup(self, cx):
         MS = ClsObj("SchemaCls", name="MetadataSchema")
@@ -334,9 +348,12 @@ class CheckTypes(FnSpec):
         out.append(("marked-checked", z3.BoolVal(sch.fields["__types_checked__"] is True), "the class is marked as checked"))
         return out
 
-    # callee side: recursive calls are logged
+    # callee side: recursive calls are logged; a dependency may be refused
     def apply(self, cx, a):
         cx.effect("check_types", a.schema, a.recheck)
+        if cx.choose(2) == 1:
+            cx.ghost["refused_by"] = "check_types"
+            cx.py_raise("TypeError", "dependency refused")
         return None
 
 
@@ -650,7 +667,7 @@ class ModelFieldNS(SVal):
 # ---- make_mandatory (C13: an optional inherited field becomes mandatory with the parent's type, nothing else) ----------------------------------
 from pyvc.containers import BOOL, ClassDecl, RefSort, SRef, SSeq, TRef  # noqa: E402
 
-ClassDecl("ModelFieldObj", {"required": BOOL})
+ClassDecl("ModelFieldObj", {"required": BOOL, "allow_none": BOOL})
 PARENT_T = z3.Function("parent_type_of_field", z3.StringSort(), Hint)  # field_parent_type(mcls, name) (bounded)
 UNOPT = z3.Function("type_without_Optional", Hint, Hint)  # util.typing.unoptional (bounded)
 
@@ -658,12 +675,13 @@ UNOPT = z3.Function("type_without_Optional", Hint, Hint)  # util.typing.unoption
 def UNOPT_PARENT(n):
     return UNOPT(PARENT_T(n))
 REQ_KEY = "ModelFieldObj.required"
+NONE_KEY = "ModelFieldObj.allow_none"
 
 
 class MakeMandatory(FnSpec):
     file = "schema/decorators.py"
     qual = "make_mandatory.<locals>.make_fields_mandatory"
-    props = ("C13",)
+    props = ("C13", "C20")
 
     def init(self):
         self.bindings["_expect_schema_class"] = lambda cx, m: None
@@ -684,12 +702,14 @@ class MakeMandatory(FnSpec):
             listed = lambda kk: z3.Exists([j], z3.And(0 <= j, j < it.i, N.at_term(j) == kk))  # noqa: E731
             return [
                 ("names-so-far-are-mandatory-with-the-parents-type", z3.ForAll([j], z3.Implies(z3.And(0 <= j, j < it.i), z3.And(F.has(nj), z3.Not(a.own.has(nj)), z3.Select(H, F.get_term(nj)), AN.has(nj), AN.get_term(nj) == UNOPT_PARENT(nj))))),
+                ("names-so-far-refuse-None", z3.ForAll([j], z3.Implies(z3.And(0 <= j, j < it.i), z3.Not(z3.Select(cx.heap_array(NONE_KEY, BOOL), F.get_term(nj)))))),
+                ("other-fields-keep-their-None-policy", z3.ForAll([r], z3.Implies(z3.Not(z3.Exists([j], z3.And(0 <= j, j < it.i, F.get_term(N.at_term(j)) == r))), z3.Select(cx.heap_array(NONE_KEY, BOOL), r) == z3.Select(a.none0, r)))),
                 ("field-table-itself-unchanged", F.same(cx, a.f0)),
                 ("other-annotations-unchanged", z3.ForAll([k], z3.Implies(z3.Not(listed(k)), z3.And(AN.has(k) == a.an0.has(k), AN.get_term(k) == a.an0.get_term(k))))),
                 ("other-fields-keep-their-requiredness", z3.ForAll([r], z3.Implies(z3.Not(z3.Exists([j], z3.And(0 <= j, j < it.i, F.get_term(N.at_term(j)) == r))), z3.Select(H, r) == z3.Select(H0, r)))),
             ]
 
-        self.loops[0] = LoopSpec(inv, modifies=["name", "hint", "msg"], havoc_inplace=["mcls.__annotations__"], havoc_heap=[REQ_KEY], heap_types={REQ_KEY: BOOL})
+        self.loops[0] = LoopSpec(inv, modifies=["name", "hint", "msg"], havoc_inplace=["mcls.__annotations__"], havoc_heap=[REQ_KEY, NONE_KEY], heap_types={REQ_KEY: BOOL, NONE_KEY: BOOL})
 
     def setup(self, cx):
         m = ClsObj("SchemaCls", name="mcls")
@@ -703,6 +723,7 @@ class MakeMandatory(FnSpec):
         a.own = SMap.fresh(STR, THint(), "own_annotations")
         a.f0, a.an0 = m.fields["__fields__"].snapshot(), m.fields["__annotations__"].snapshot()
         a.req0 = cx.heap_array(REQ_KEY, BOOL)
+        a.none0 = cx.heap_array(NONE_KEY, BOOL)
         cx.ghost["mm"] = a
         return a
 
@@ -727,6 +748,8 @@ class MakeMandatory(FnSpec):
         listed = lambda kk: z3.Exists([j], z3.And(0 <= j, j < N.n, N.at_term(j) == kk))  # noqa: E731
         return [
             ("every-named-field-is-mandatory-with-the-parents-type", z3.ForAll([j], z3.Implies(z3.And(0 <= j, j < N.n), z3.And(z3.Select(H, F.get_term(nj)), AN.has(nj), AN.get_term(nj) == UNOPT_PARENT(nj)))), "each named field becomes required and gets as type hint the parent's type without Optional — a narrowing, never another type"),
+            ("no-named-field-accepts-None", z3.ForAll([j], z3.Implies(z3.And(0 <= j, j < N.n), z3.Not(z3.Select(cx.heap_array(NONE_KEY, BOOL), F.get_term(nj))))), "a field made mandatory does not accept None either (the copied field keeps allow_none from the parent's Optional; None is dropped on serialisation, so the stored object would lack a field its own JSON Schema requires)"),
+            ("other-fields-keep-their-None-policy", z3.ForAll([r], z3.Implies(z3.Not(z3.Exists([j], z3.And(0 <= j, j < N.n, F.get_term(N.at_term(j)) == r))), z3.Select(cx.heap_array(NONE_KEY, BOOL), r) == z3.Select(a.none0, r))), "no other field's None policy is touched"),
             ("only-inherited-fields-not-redeclared-here", z3.ForAll([j], z3.Implies(z3.And(0 <= j, j < N.n), z3.Not(self.refused(a, nj)))), "the decorator is refused for names that are no fields, or that the class declares itself"),
             ("nothing-else-changes", z3.And(F.same(cx, a.f0), z3.ForAll([k], z3.Implies(z3.Not(listed(k)), z3.And(AN.has(k) == a.an0.has(k), AN.get_term(k) == a.an0.get_term(k)))), z3.ForAll([r], z3.Implies(z3.Not(z3.Exists([j], z3.And(0 <= j, j < N.n, F.get_term(N.at_term(j)) == r))), z3.Select(H, r) == z3.Select(a.req0, r)))), "no other field's requiredness or annotation is touched"),
             ("returns-the-class", z3.BoolVal(res is m), "usable as a decorator"),
@@ -1246,7 +1269,9 @@ def build_c12(reg):
 def build_c20_schema(reg):
     s = SchemaExtra()
     reg.add(s)
-    return [s]
+    m = MakeMandatory()  # a field listed as required by the embedded JSON Schema is one the class does not accept None for
+    reg.add(m)
+    return [s, m]
 
 
 def build_c13(reg):
